@@ -5,10 +5,13 @@ from harness import worlds
 
 PROP = "C03"
 LEAN_MODULE = "Ztr.Props.C03Run"
-LEAN_DEPS = ["Ztr.Props.C03"]
+LEAN_DEPS = ["Ztr.Props.C03", "Ztr.Props.C10Names"]
 THEOREMS = ['Ztr.Runner.C03_layers_once', 'Ztr.Runner.C03_child_one_layer', 'Ztr.Result.C03_tests_started',
             'Ztr.Result.C03_all_started', 'Ztr.Runner.C03_iterations_execute', 'Ztr.Runner.C03_parent_tests_not_in_children',
-            'Ztr.Runner.C03_child_only_own_layer']
+            'Ztr.Runner.C03_child_only_own_layer',
+            # every registered (name, tests) group is handed to the layer loop exactly once, also when several names
+            # resolve to one layer object (Model/Ordered)
+            'Ztr.Ordered.C10N_names_once', 'Ztr.Ordered.C10N_D36_witness']
 RULE = ("worlds with several modules, nested suites, layer declarations on leaves or enclosing suites; option vectors "
         "over -t patterns, --layer patterns, -u/-f, --repeat, --shuffle-seed, -j N and layers that cannot be torn "
         "down (later ones resumed in children); every run is preceded by a --list-tests run with the same options. "
